@@ -323,26 +323,30 @@ impl<'a> Cx<'a> {
 
     /// `x[i]`, `x[..n]` on vectors, slices and reverse views (rule 18)
     pub fn lower_index(&mut self, ix: &syn::ExprIndex) -> R<Val> {
-        self.limb_check(ix.span())?;
         let base = self.lower_expr(&ix.expr, None)?;
+        if base.ty != Ty::Bytes {
+            self.limb_check(ix.span())?;
+        }
         if let syn::Expr::Range(r) = &*ix.index {
-            // `&s[..n]`
-            let end = match (&r.start, &r.end, &r.limits) {
-                (None, Some(e), syn::RangeLimits::HalfOpen(_)) => e,
-                _ => return err(ix.span(), "only `[..n]` ranges are supported"),
+            // `&s[..n]` (slice_to), `&s[n..]` (slice_from: byte slices only, rule 24)
+            let (bound, op) = match (&r.start, &r.end, &r.limits) {
+                (None, Some(e), syn::RangeLimits::HalfOpen(_)) => (e, "slice_to"),
+                (Some(e), None, syn::RangeLimits::HalfOpen(_)) if base.ty == Ty::Bytes => (e, "slice_from"),
+                _ => return err(ix.span(), "only `[..n]` (and `[n..]` on byte slices) ranges are supported"),
             };
-            let l = match base.ty {
-                Ty::Slice => base.t.clone(),
-                Ty::Vec => format!("(vl {})", base.t),
+            let (l, rty) = match base.ty {
+                Ty::Slice => (base.t.clone(), Ty::Slice),
+                Ty::Bytes => (base.t.clone(), Ty::Bytes),
+                Ty::Vec => (format!("(vl {})", base.t), Ty::Slice),
                 t => return err(ix.span(), format!("range index on a value of type {}", t)),
             };
-            let n = self.lower_expr(end, Some(&USIZE))?;
+            let n = self.lower_expr(bound, Some(&USIZE))?;
             if n.ty != USIZE {
                 return err(ix.span(), "range bound is not a usize");
             }
             let t = self.fresh();
-            self.push(S::Bind(t.clone(), format!("slice_to {} {}", l, n.t)));
-            return Ok(Val::new(t, Ty::Slice));
+            self.push(S::Bind(t.clone(), format!("{} {} {}", op, l, n.t)));
+            return Ok(Val::new(t, rty));
         }
         let i = self.lower_expr(&ix.index, Some(&USIZE))?;
         if i.ty != USIZE {
@@ -353,6 +357,11 @@ impl<'a> Cx<'a> {
                 let t = self.fresh();
                 self.push(S::Bind(t.clone(), format!("slice_get {} {}", base.t, i.t)));
                 Ok(Val::new(t, U64))
+            }
+            Ty::Bytes => {
+                let t = self.fresh();
+                self.push(S::Bind(t.clone(), format!("slice_get {} {}", base.t, i.t)));
+                Ok(Val::new(t, Ty::Int(IntTy::U8)))
             }
             Ty::Vec => {
                 let t = self.fresh();
@@ -409,6 +418,78 @@ impl<'a> Cx<'a> {
                 }
                 t => err(sp, format!("`unwrap()` on a value of type {}", t)),
             };
+        }
+        // ---- rule 25: `.is_some()`, `.is_none()`, `.map_or(d, |p| pure)` on an Option
+        if (name == "is_some" || name == "is_none") && args.is_empty() {
+            let v = self.lower_expr(&m.receiver, None)?;
+            return match &v.ty {
+                Ty::Opt(_) => {
+                    let (a, b) = if name == "is_some" { ("true", "false") } else { ("false", "true") };
+                    Ok(Some(Val::new(format!("(match {} with Some _ => {} | None => {} end)", v.t, a, b), Ty::Bool)))
+                }
+                t => err(sp, format!("`{}()` on a value of type {}", name, t)),
+            };
+        }
+        if name == "map_or" && args.len() == 2 {
+            let v = self.lower_expr(&m.receiver, None)?;
+            let inner = match &v.ty {
+                Ty::Opt(t) => (**t).clone(),
+                t => return err(sp, format!("`map_or` on a value of type {}", t)),
+            };
+            let d = self.lower_expr(args[0], expected)?;
+            let c = match args[1] {
+                syn::Expr::Closure(c) if c.inputs.len() == 1 => c,
+                a => return err(a.span(), "`map_or` needs a one-parameter closure"),
+            };
+            let pb = self.elem_pattern(&c.inputs[0], &inner)?;
+            self.push_pat_scope(&pb);
+            let body = self.lower_pure_lets(&c.body, Some(&d.ty));
+            self.scopes.pop();
+            let body = body?;
+            if body.ty != d.ty {
+                return err(c.body.span(), format!("the closure of `map_or` returns {} but the default is {}", body.ty, d.ty));
+            }
+            let pat = pb.pat.trim_start_matches('\'').to_string();
+            return Ok(Some(Val::new(format!("(match {} with Some {} => {} | None => {} end)", v.t, pat, body.t, d.t), d.ty)));
+        }
+        // ---- rule 25: `(c as char).to_digit(10)` on a u8
+        if name == "to_digit" && args.len() == 1 {
+            if let syn::Expr::Cast(c) = strip_ref(&m.receiver) {
+                let is_char = matches!(&*c.ty, syn::Type::Path(p) if p.path.is_ident("char"));
+                let radix10 = matches!(args[0], syn::Expr::Lit(syn::ExprLit { lit: syn::Lit::Int(i), .. }) if i.base10_digits() == "10" && i.suffix().is_empty());
+                if is_char && radix10 {
+                    let v = self.lower_expr(&c.expr, Some(&Ty::Int(IntTy::U8)))?;
+                    if v.ty != Ty::Int(IntTy::U8) {
+                        return err(sp, format!("`as char` of a value of type {}", v.ty));
+                    }
+                    return Ok(Some(Val::new(format!("(u8_to_digit10 {})", v.t), Ty::Opt(Box::new(Ty::Int(IntTy::U32))))));
+                }
+            }
+            return err(sp, "`to_digit` is only supported as `(c as char).to_digit(10)` with `c: u8`");
+        }
+        // ---- rule 25: `e.take_while(|p| pure).count()`
+        if name == "count" && args.is_empty() {
+            if let syn::Expr::MethodCall(tw) = &*m.receiver {
+                if tw.method == "take_while" && tw.args.len() == 1 {
+                    let (l, ety) = self.lower_seq(&tw.receiver)?;
+                    let c = match &tw.args[0] {
+                        syn::Expr::Closure(c) if c.inputs.len() == 1 => c,
+                        a => return err(a.span(), "`take_while` needs a one-parameter closure"),
+                    };
+                    if ety != Ty::Int(IntTy::U8) && ety != U64 {
+                        return err(sp, "`take_while(..).count()` is only supported on integer items");
+                    }
+                    let pb = self.elem_pattern(&c.inputs[0], &ety)?;
+                    self.push_pat_scope(&pb);
+                    let body = self.lower_pure_lets(&c.body, Some(&Ty::Bool));
+                    self.scopes.pop();
+                    let body = body?;
+                    if body.ty != Ty::Bool {
+                        return err(c.body.span(), "the closure of `take_while` must return a bool");
+                    }
+                    return Ok(Some(Val::new(format!("(take_while_count (fun {} => {}) {})", pb.pat, body.t, l), USIZE)));
+                }
+            }
         }
         // ---- `.any(|x| pure)` on an iterator expression
         if name == "any" && args.len() == 1 {
@@ -493,6 +574,29 @@ impl<'a> Cx<'a> {
                 Ok(Some(Val::new(l, rty.clone())))
             }
             // ---- slices
+            (Ty::Bytes, "len") => {
+                noargs(args.len())?;
+                let r = self.lower_expr(&m.receiver, None)?;
+                Ok(Some(Val::new(format!("(zlen {})", r.t), USIZE)))
+            }
+            (Ty::Bytes, "is_empty") => {
+                noargs(args.len())?;
+                let r = self.lower_expr(&m.receiver, None)?;
+                Ok(Some(Val::new(format!("(zlen {} =? 0)", r.t), Ty::Bool)))
+            }
+            (Ty::Bytes, "get") if args.len() == 1 => {
+                let r = self.lower_expr(&m.receiver, None)?;
+                let i = self.lower_expr(args[0], Some(&USIZE))?;
+                if i.ty != USIZE {
+                    return err(sp, "index is not a usize");
+                }
+                Ok(Some(Val::new(format!("(slice_get_opt {} {})", r.t, i.t), Ty::Opt(Box::new(Ty::Int(IntTy::U8))))))
+            }
+            (Ty::Bytes, "first") => {
+                noargs(args.len())?;
+                let r = self.lower_expr(&m.receiver, None)?;
+                Ok(Some(Val::new(format!("(hd_error {})", r.t), Ty::Opt(Box::new(Ty::Int(IntTy::U8))))))
+            }
             (Ty::Slice, "len") => {
                 noargs(args.len())?;
                 let r = self.lower_expr(&m.receiver, None)?;
@@ -603,6 +707,19 @@ impl<'a> Cx<'a> {
                 Ok(Some(Val::new(format!("(try_from (alloc c) L {})", v.t), Ty::Opt(Box::new(Ty::Vec)))))
             }
             "VecType::from_u64" | "Bigint::new" | "Bigint::from_u64" => Ok(Some(self.lower_deleg(sp, s, None, args, expected)?)),
+            // rule 27: the crate's exported `parse_float` is parse.rs's (lib.rs checked)
+            "minimal_lexical::parse_float" => {
+                if !self.g.export_parse_float {
+                    return err(sp, "lib.rs does not say `pub use self::parse::parse_float;`");
+                }
+                let fi = match self.g.get_fn("parse.rs", "parse_float") {
+                    Some(f) => f.clone(),
+                    None => return err(sp, "calls `parse_float` of parse.rs, which was omitted"),
+                };
+                self.needs.union(fi.needs);
+                let v = self.call_generic(sp, format!("{} {}", fi.coq_name, fi.needs.args()), &fi.params, &fi.ret, true, vec![], args)?;
+                Ok(Some(v))
+            }
             "Number::default" if args.is_empty() => {
                 if !self.g.number_default {
                     return err(sp, "`Number` does not derive `Default`");
